@@ -32,6 +32,7 @@ type c16Case struct {
 	Code      int         `json:"code,omitempty"`
 	Cpus      int         `json:"cpus,omitempty"`
 	Bound     int         `json:"bound,omitempty"`
+	FnPts     bool        `json:"fn_points,omitempty"` // function entries are scheduling points too
 	Choices   []vrt.Point `json:"choices,omitempty"`
 }
 
@@ -514,7 +515,7 @@ func c16Sched(c *mc.Ctx, cs c16Case, single bool) {
 	}
 	ex := &mc.Explorer{
 		Ctx:   c,
-		Opts:  vrt.Options{Sched: true, MaxSteps: 20000},
+		Opts:  vrt.Options{Sched: true, MaxSteps: 500000, FnPoints: cs.FnPts},
 		Bound: map[string]int{"sched": cs.Bound},
 		Body:  func() any { return c16Run(cs) },
 	}
@@ -678,6 +679,18 @@ func c16Tasks(tier string) []mc.Task {
 		// no reference supplied, and a sequence without similarity
 		cs := c16Case{Kind: "sched", Seqs: []string{"C" + sref + "G", c16NoSim, sref + "GTT"}, Translate: true, Cpus: cpus, Bound: eb}
 		ts = append(ts, mc.Task{Name: fmt.Sprintf("sched#noref-nosim/cpus%d", cpus), Run: func(c *mc.Ctx) { c16Sched(c, cs, false) }})
+	}
+	// interleavings inside the workers: every function entry (>= 4 statements) of goalign is a scheduling
+	// point as well, one preemption, two workers: state shared through the heap (a reference sequence
+	// edited in place by the aligner, a buffer kept in the phaser) shows by its effect on the results
+	for _, tr := range []bool{true, false} {
+		for _, rev := range []bool{false, true} {
+			if rev && !thorough {
+				continue
+			}
+			cs := c16Case{Kind: "sched", Seqs: []string{"C" + sref + "G", sref + "GT"}, Orf: sref, Translate: tr, Reverse: rev, Cpus: 2, Bound: 1, FnPts: true}
+			ts = append(ts, mc.Task{Name: fmt.Sprintf("sched#fnpoints/tr%v/rev%v", tr, rev), Run: func(c *mc.Ctx) { c16Sched(c, cs, false) }})
+		}
 	}
 	// --- LongestORF: all sequences over ATGC
 	maxL := 9
@@ -861,6 +874,7 @@ func init() {
 		ID:    "C16",
 		Level: "model_checking",
 		Rule: "schedule part: stateless DFS over all interleavings of the real Phase goroutines (sequence producer, cpus workers, closer, consuming harness thread) with iterative preemption bounds 0..2 (quick) / 0..3 (thorough), 3 sequences x cpus 1..3 x {translate, nt}; error path with an untranslatable sequence in each position; no reference + a sequence without similarity. " +
+			"function-entry part: 2 sequences, 2 workers, translate on/off, every function entry of goalign (functions of >= 4 statements) an additional scheduling point, preemption bound 1. " +
 			"input part: LongestORF on all sequences of length <=9 (quick) / <=11 (thorough) over {A,T,G,C} plus a family of overlapping-frame sequences (upper/lower case, U) and every concatenation of up to 7 (thorough 8) codon tokens from {ATG,TAA,TGA,AAA,C} against a brute-force scan; SeqBag.LongestORF on pairs; Phase on ORF copies with 5 five-prime flanks x (exact | 18 single substitutions | reverse complement) x 3 three-prime flanks, alone / with a no-similarity sequence / in a set of 3, x translate x reverse x cut-end x genetic codes x reference supplied or not; two references in both orders against sequences that open with a 5'-truncated piece of one and contain the other verbatim (and truncated piece forward + whole ORF on the reverse strand). " +
 			"distinct_nontrivial counts distinct (case, schedule) executions plus input cases whose result was fully compared.",
 		Assumptions: []string{
